@@ -7,12 +7,12 @@ CFG = dict(
               "quat_rotate_mul", "quat_rotate_norm_general", "quat_rotate_norm", "quat_rotate_add", "quat_rotate_smul",
               "quat_identity_rotate", "quat_fromTheta_unit", "quat_rotationTo_generic", "halfturn_flips", "quat_rotationTo_antiparallel", "trs_transform",
               "aabb_setMinMax_min", "aabb_setMinMax_max", "aabb_contains_iff", "aabb_encapsulatePoint_contains",
-              "aabb_encapsulatePoint_mono", "aabb_encapsulateBounds_contains", "aabb_encapsulateBounds_mono", "aabb_closestPoint_in_box", "aabb_closestPoint_id_inside"],
+              "aabb_encapsulatePoint_mono", "aabb_encapsulateBounds_contains", "aabb_encapsulateBounds_mono", "aabb_fromPoints_min", "aabb_fromPoints_max", "aabb_fromPoints_contains_all", "aabb_closestPoint_in_box", "aabb_closestPoint_id_inside"],
     streams=[dict(name="c17", n=dict(quick=300, thorough=20000),
                   ulps={"c17.quat.fromtheta": (8, 1e-15), "c17.quat.rotationto": (8, 1e-15)})],
     trusted=T_COMMON + ["sin/cos: Go math.Sin/Cos vs libm compared within 8 ulps (only FromTheta uses them)"],
     residue=["mesh-level Rotate / Translate / Scale / ApplyTRS 'move positions exactly as the underlying transform moves points': tied by the c17.mesh.* correspondence lines (Go output vs map of the regenerated point function, bit for bit), NOT a Lean theorem (the mesh methods are loops over a slice, outside the translator's subset)",
-             "NewAABBFromPoints (uses math.Inf and a loop) is not translated and has no theorem; EncapsulatePoint / EncapsulateBounds, which it is the fold of, are proved",
+             "NewAABBFromPoints (uses math.Inf and a loop) is not translated: it is HAND-modelled for non-empty lists (Model/AabbFromPoints.lean, tied bit for bit by c17.aabb.frompoints) and aabb_fromPoints_contains_all is about that model; the empty list (box with infinite extents) is not modelled",
              "RotationTo is proved for UNIT directions only (a·a = b·b = 1): generic branch maps a onto b; the opposite branch (a·b < -0.999999) maps a onto -a, which is b exactly when b = -a; for non-unit inputs the function does not map a onto b (and is not claimed to)",
              "aabb_setMinMax_min/max, aabb_contains_iff, halfturn_flips, mat_identity, mat_mulPosition, trs_transform are helper / unfolding lemmas listed because later theorems are stated through them",
              "IEEE-754 rounding error of the same expressions (theorems are over ℝ); observed bit-for-bit against the model at Float, not proved",
@@ -20,6 +20,6 @@ CFG = dict(
     assumptions=["float64 arithmetic in Go on amd64 is IEEE-754 without FMA contraction"],
     manifest=dict(
         text="Lean 4 theorems over ℝ about definitions regenerated from math/{mat,quaternion,trs,geometry} on every run (entrywise add, row-by-column product = Mathlib matrix product, identity/assoc/inverse laws, det = Matrix.det, quaternion composition/length/linearity, FromTheta unit, RotationTo maps a onto b for UNIT a, b (generic branch; the opposite branch maps a onto -a), TRS = R(S∘v)+T, AABB encapsulate/closest-point containment); kernel-checked, axioms audited per theorem; the regenerated definitions are executed at Float and compared bit-for-bit with the Go functions, and the theorem predicates are evaluated on the Go functions' outputs.",
-        note="Trusted: Lean kernel; propext/Classical.choice/Quot.sound; translator go/xlate and its vector-library table; harness; Go toolchain. Not proved: IEEE rounding error; mesh-level transforms and NewAABBFromPoints are correspondence-only (no theorem).",
+        note="Trusted: Lean kernel; propext/Classical.choice/Quot.sound; translator go/xlate and its vector-library table; harness; Go toolchain. Not proved: IEEE rounding error; mesh-level transforms are correspondence + pointwise oracle (no theorem); NewAABBFromPoints is hand-modelled.",
         technique="Lean 4 proof over a model regenerated from source (translator) + Float bit-exact correspondence"),
 )
